@@ -24,6 +24,7 @@ warning:
   - v-wide-or
   - v-two-kinds
   - v-lookalike
+  - v-rego-twins
 info:
   - i-shapes
 validations:
@@ -62,6 +63,14 @@ validations:
       - propertyConstraints:
           ex.w9:
             minCount: 1
+  v-rego-twins:
+    targetClass: ex.T
+    message: two embedded checks that differ in nothing but their code
+    or:
+      - rego: |
+          $result = (object.get($node, "http://example.org/ns#p", null) != null)
+      - rego: |
+          $result = (object.get($node, "http://example.org/ns#low", null) == 5)
   v-lookalike:
     targetClass: ex.T
     message: operands that print alike
